@@ -239,6 +239,52 @@ def ob_loss_reuse(kind, tomo, m, seq):
     return FnOb(reals("x", nv, -1.0, 1.0), run, assume=assume, eager_ite=True, max_paths=40, expect_nonlinear=True)
 
 
+def ob_data_operands(op):
+    """operations that take empirical distributions (symbolic, incl. entries below the 1e-8 replacement threshold) leave the arrays they
+    were handed unchanged: the very same array objects are inspected entry by entry afterwards"""
+    sizes = [2, 2, 2]
+
+    def mk(I):
+        data = []
+        for j in range(3):
+            q0 = I[f"q{j}"]
+            arr = SymNd([q0, 1.0 - q0]) if isinstance(q0, Sym) else np.array([q0, 1.0 - q0], dtype=np.float64)
+            data.append((20 + 10 * j, arr))
+        return data
+
+    def run(I):
+        from quara.utils import matrix_util as MU
+        qt, tmpl, sel, sched = c12.build_qt("qst", "Q1", 0, False)
+        data = mk(I)
+        snap = [(n, [v for v in flat(q)]) for n, q in data]
+        if op == "replace_prob_dist":
+            for n, q in data:
+                MU.replace_prob_dist(q)
+        elif op == "covariance":
+            for n, q in data:
+                MU.calc_covariance_mat(q, n)
+        elif op == "fisher":
+            A = qt.calc_matA()
+            for j, (n, q) in enumerate(data):
+                MU.calc_fisher_matrix(q, [A[2 * j], A[2 * j + 1]])
+        elif op == "linear_estimate":
+            from quara.protocol.qtomography.standard.linear_estimator import LinearEstimator
+            LinearEstimator().calc_estimate(qt, data)
+        else:
+            kind, mode = op.split(":")
+            opt = c12.se_option(mode) if kind.startswith("se") else c12.re_option(mode)
+            loss = c12.make_loss(kind, qt, opt, data)
+            x = np.array([0.7, 0.1, 0.2, -0.1])
+            loss.value(x)
+            loss.gradient(x)
+        out = []
+        for j, ((n0, vals0), (n1, q1)) in enumerate(zip(snap, data)):
+            out.append(Holds(f"dataset {j}: sample size unchanged", n0 == n1))
+            out.append(Eq(f"dataset {j}: the array handed in is unchanged", q1, np.array(vals0, dtype=object), 0.0))
+        return out
+    return FnOb([(f"q{j}", "real", 0.0, 1.0) for j in range(3)], run, max_paths=200, expect_nonlinear=True, eager_ite=False)
+
+
 def obligations(tier):
     out = []
     ops = None
@@ -257,6 +303,8 @@ def obligations(tier):
             out += specs("C13.history", [{"first": first, "rest_group": core_ops, "length": 3}], ob_history, 30)
     out += specs("C13.copy_alias", [{"typ": t} for t in ("state", "povm", "gate", "mprocess")], ob_copy_alias, 1)
     out += specs("C13.basis_readonly", [{}], ob_basis_readonly, 0.5)
+    out += specs("C13.data_operands", [{"op": o} for o in ("replace_prob_dist", "covariance", "fisher", "linear_estimate", "se:identity", "se:inverse_sample_covariance",
+                                                           "se:inverse_unbiased_covariance", "se_fast:inverse_sample_covariance", "re:identity", "re_fast:identity")], ob_data_operands, 3)
     seqs = [[("D1", "identity"), ("D2", "identity")], [("D1", "custom"), ("D2", "identity")], [("D1", "identity"), ("D1", "custom")], [("D2", "custom"), ("D1", "custom")]]
     seqs_se = seqs + [[("D1", "inverse_sample_covariance"), ("D2", "inverse_sample_covariance")], [("D1", "inverse_sample_covariance"), ("D1", "identity")]]
     for kind in ("se", "se_fast"):
